@@ -12,7 +12,8 @@ EXPLANATION = ("Decided from MIR: (R1) in EntryStore::finalize every call that c
                "(R3) Vow::bind clones the Arc that Vow::fulfil stores into, BasicEntry::{set_idx,get_idx} use that same field, and "
                "EntryStore::add_entry returns the Bound obtained from the entry it pushes; (R4) in both value stores the sort precedes the "
                "assignment of value ids and `finalized = true` comes last. The stored reference value for a given graph is not decided."
-               " (R3 Word) Word::get evaluates the stored closure at every call: no memoised value in `get` nor as a field of Word.")
+               " (R3 Word) Word::get evaluates the stored closure at every call: no memoised value in `get` nor as a field of Word."
+               " Added later: (R5) a constructor given a Vow<EntryIdx> moves it whole into the entry; (R6) = C02-R1 for positions kept in signed columns; (R7) the transformation of the caller's values never evaluates a deferred word; (R1) no sort after a consumer.")
 ASSUMPTIONS = ["rayon par_iter_mut().enumerate() yields (position, element) pairs", "atomics with Relaxed ordering are read after the join of finalisation",
                "rustc MIR construction and trait resolution"]
 
